@@ -40,6 +40,12 @@ def product_check(rep: common.Report, cases: list[dict], tag: str, prop: str = "
     return out
 
 
+def n_enum_ok(ok, srcs, n_enum) -> int:
+    """index in `ok` at which the random programs start"""
+    enum = set(srcs[:n_enum])
+    return sum(1 for c in ok if c["src"] in enum)
+
+
 def corrupt(case: dict) -> dict | None:
     """binding self-test: change one parameter of the first op of the first non-empty routine that has a source
     body (always reachable, hence always observable)"""
@@ -77,7 +83,21 @@ def main() -> int:
                 raise common.MachineryError(f"node-table walk failed on accepted program: {c['err']}\n{src}")
             continue
         ok.append(c)
-    bad = product_check(rep, ok, "main")
+    # which pass is to blame: stage snapshots of the back half of compile() for a sample, refinement-checked pass by pass
+    # (spec/CompilerPipeline.tla).  The verdict about C01 stays with CompileEquiv; a pass that does not refine its input while the
+    # compiled result is right (compensated downstream) is recorded in the evidence, not reported.
+    from vf import pipeline
+    first_random = n_enum_ok(ok, srcs, n_enum)
+    sample = [c["src"] for i, c in enumerate(ok) if (i < first_random and i % (4 if thorough else 6) == 0) or first_random <= i < first_random + (3000 if thorough else 300)]
+    staged = [r for r in pmap(pipeline.staged_compile, sample, limit=20.0) if r.get("status") == "ok" and r.get("complete")]
+    blame, ptot = pipeline.tlc_check(staged, "main")
+    rep.states += ptot["distinct"]
+    rep.transitions += ptot["states"]
+    blame_by_src = {staged[i]["src"]: sorted({f"{v}@{pipeline.PASS_NAME.get(pr, pr)}" for v, pr in vs}) for i, vs in blame.items()}
+    rep.extra["pipeline"] = {"programs_staged": len(staged), "passes_not_refining": len(blame_by_src),
+                             "examples": [{"src": k, "verdicts": v} for k, v in list(blame_by_src.items())[:3]],
+                             "selftest_corrupted_rejected": pipeline.self_test(staged[3:300:30])}
+    bad = product_check(rep, ok, "main", extra=lambda c: {"pipeline": blame_by_src.get(c["src"], "all passes refine / not sampled")})
     badset = {i for i, _ in bad}
     # binding self-test
     muts = []
